@@ -82,12 +82,12 @@ func runC05(w *World, r *Report) {
 	r.Rule("mirror", "fields written by an encoder are read back from the same offset, width and byte order into the same field, and vice versa", 300)
 	r.Rule("trailing", "decoders test the input length with lower bounds only", 60)
 	r.Rule("codes", "the code a constructor stores selects, in the dispatcher, the kind that constructor returns", 30)
-	r.Rule("retain", "elements decoded in list loops are stored into the receiver", 8)
+	r.Rule("retain", "elements decoded in list loops are stored into the receiver", 5)
 	r.Rule("extent", "the size an element reports (by which list decoders advance) equals the bytes its encoder produces", 100)
-	r.Rule("exhaust", "list-decoding loops run while any element can remain", 10)
+	r.Rule("exhaust", "list-decoding loops run while any element can remain", 6)
 	r.Rule("keepall", "an element consumed by a list loop is stored on every path", 0)
 	r.Rule("oxm-varlen", "variable-length OXM payloads are decoded with oxm_length (no mask) or half of it (mask), as the encoder writes them", 2)
-	r.Rule("fresh", "a value decoded into inside a list loop is new in each iteration (or fully overwritten by the child decoder)", 12)
+	r.Rule("fresh", "a value decoded into inside a list loop is new in each iteration (or fully overwritten by the child decoder)", 7)
 
 	nKinds := 0
 	for _, k := range w.KindsL {
@@ -150,6 +150,50 @@ func runC05(w *World, r *Report) {
 		exhaustRule(w, r, dfi)
 		keepAllRule(w, r, dfi)
 	}
+	// list loops moved out of a decoder into a helper are still list loops of the decoder
+	for _, hfi := range decodeHelpers(w, func(pkg string) bool { return pkg != "protocol" && pkg != "util" && pkg != "ofbase" }) {
+		freshRule(w, r, hfi)
+		exhaustRule(w, r, hfi)
+		keepAllRule(w, r, hfi)
+	}
+}
+
+// decodeHelpers: functions and methods that take input bytes, contain a loop and are not themselves a
+// kind's decoder, encoder or size function — the steps a decoder was split into.
+func decodeHelpers(w *World, pkgSel func(pkg string) bool) []*FuncInfo {
+	var out []*FuncInfo
+	for _, key := range w.sortedFuncKeys() {
+		fi := w.Funcs[key]
+		if fi.Decl.Body == nil || !pkgSel(fi.Pkg.Name) {
+			continue
+		}
+		switch fi.Decl.Name.Name {
+		case "UnmarshalBinary", "MarshalBinary", "Len":
+			continue
+		}
+		sig := fi.Obj.Type().(*types.Signature)
+		hasBytes := false
+		for i := 0; i < sig.Params().Len(); i++ {
+			if isByteSlice(sig.Params().At(i).Type()) {
+				hasBytes = true
+			}
+		}
+		if !hasBytes {
+			continue
+		}
+		hasLoop := false
+		ast.Inspect(fi.Decl.Body, func(n ast.Node) bool {
+			switch n.(type) {
+			case *ast.ForStmt, *ast.RangeStmt:
+				hasLoop = true
+			}
+			return !hasLoop
+		})
+		if hasLoop {
+			out = append(out, fi)
+		}
+	}
+	return out
 }
 
 // mirrorKind compares the write and read records of one kind.
